@@ -31,14 +31,26 @@ ASSUMPTIONS = [
     "afresh from the configured string with qkeras.quantizers.get_quantizer",
     "Dense/Conv1D/Conv2D/Depthwise/Separable/ScaleShift and SimpleRNN/LSTM/GRU: "
     "outputs compared exactly (NaN equals NaN); measured difference on the "
-    "unchanged tree is 0.0",
+    "unchanged tree is 0.0 - both sides reach the same TF op with the same "
+    "arguments",
+    "exception: QConv1D with groups>1 (the layer uses tf.keras.backend.conv1d, "
+    "the stock Conv1D its XLA-compiled grouped convolution whose use of fused "
+    "multiply-adds depends on the input shape; seen: 1 ulp). When the exact "
+    "comparison fails there, the layer's pre-activation output (same class "
+    "built without activation) AND the stock layer's must both lie within "
+    "(n_terms+3)*2^-23*(sum|w_i x_i|+|b|) of the float64 stock convolution on "
+    "the pre-quantized weights, n_terms = taps*channels per group, and the "
+    "activated output must equal the activation of that pre-activation output "
+    "exactly (label conv1d_groups_tolerance)",
     "recurrent layers: exact against a time loop over the stock cell fed with "
     "state_quantizer(state); without state quantizer additionally against the "
     "stock recurrent layer itself - exactly, except when activation='tanh' and "
     "recurrent_activation='sigmoid' on LSTM/GRU, where tf_keras switches to "
     "its fused standard_lstm/standard_gru routine (other float32 operation "
-    "order): |diff| <= 1e-6*(1+|y|); measured on the unchanged tree: <= 1e-7 "
-    "(labels fused_diff:*)",
+    "order): |diff| <= 1e-5*(1+|y|); measured on /repo over 806 such cases "
+    "(up to 5 time steps): 747 exact, 56 <= 1e-7, 3 <= 1e-6, none larger "
+    "(labels fused_diff:*); the worst-case evaluation error of the gate "
+    "pre-activations, n_terms*2^-24*sum|w x| per step, is above 1e-5",
     "channels_first: when the stock layer's CPU kernel rejects NCHW the "
     "reference is the same stock layer in channels_last on the transposed "
     "input; Conv1D/SeparableConv1D causal padding is only generated with "
@@ -308,6 +320,13 @@ def _differential(case, ws, x, yq, qlist, act, ract, base, labs, twin):
   if "rnn_ref" in info:
     labs.append("rnn_ref:" + info["rnn_ref"])
 
+  if not same(yq, yr) and R.paths_differ(case):
+    # two different float32 implementations of the same convolution (see
+    # R.paths_differ): both must lie within the evaluation-error bound of the
+    # float64 value, and the activation must be applied to what the layer
+    # itself computed
+    labs.append("conv1d_groups_tolerance")
+    return _tolerant_conv(case, ws, x, yq, qlist, act, base, info), yr
   if not same(yq, yr):
     why = _explain(case, ws, x, qlist, act, ract, yq)
     return [("values", dict(base, explains=why), _diff_detail(yq, yr))], yr
@@ -324,19 +343,52 @@ def _differential(case, ws, x, yq, qlist, act, ract, base, labs, twin):
       if R.fused_kernel_possible(case):
         labs.append("rnn_fused_tolerance")
         ok = (yl.shape == yq.shape and bool(np.all(
-            np.abs(yl.astype(np.float64) - yq) <= 1e-6 * (1 + np.abs(yl)))))
+            np.abs(yl.astype(np.float64) - yq) <= 1e-5 * (1 + np.abs(yl)))))
         if yl.shape == yq.shape:
           dmax = float(np.max(np.abs(yl.astype(np.float64) - yq) /
                               (1 + np.abs(yl))))
           labs.append("fused_diff:0" if dmax == 0 else
                       "fused_diff<=1e-7" if dmax <= 1e-7 else
-                      "fused_diff<=1e-6" if dmax <= 1e-6 else "fused_diff>1e-6")
+                      "fused_diff<=1e-6" if dmax <= 1e-6 else "fused_diff<=1e-5")
       else:
         ok = same(yq, yl)
       if not ok:
         return [("values", dict(base, explains="stock_layer_differs"),
                  _diff_detail(yq, yl))], yr
   return [], yr
+
+
+def _tolerant_conv(case, ws, x, yq, qlist, act, base, info):
+  ref, tol, _ = R.conv_ref64(case, ws, x, qlist)
+  stock_pre = info["pre_activation"]
+  if not bool(np.all(np.abs(stock_pre.astype(np.float64) - ref) <= tol)):
+    raise core.HarnessError("C11: stock layer outside its own float64 bound")
+  if case.get("act") is not None:
+    try:
+      _, pre = _run_q(case, ws, x, act_override=None)
+    except Exception as e:  # pylint: disable=broad-except
+      sig = dict(base, **core.exc_signature(e))
+      sig["token"] = _token(e)
+      return [("layer_raises", sig, repr(e)[:400])]
+  else:
+    pre = yq
+  if pre.shape != ref.shape:
+    return [("values", dict(base, explains="shape"),
+             "shape %r vs %r" % (pre.shape, ref.shape))]
+  err = np.abs(pre.astype(np.float64) - ref)
+  bad = ~(err <= tol)
+  if bad.any():
+    i = np.unravel_index(int(np.argmax(np.where(bad, err / tol, -1))), err.shape)
+    return [("values", dict(base, explains="outside_float64_bound"),
+             "pre-activation %r vs float64 reference %r (bound %.3g), %d/%d "
+             "elements outside" % (pre[i], ref[i], tol[i], int(bad.sum()),
+                                   bad.size))]
+  if case.get("act") is not None:
+    ya = R.apply_act(G.resolve_activation(case["act"]), pre)
+    if not same(yq, ya):
+      return [("values", dict(base, explains="activation"),
+               _diff_detail(yq, ya))]
+  return []
 
 
 def _distinct_pair(case):
